@@ -12,6 +12,7 @@ import (
 
 	sdkmath "cosmossdk.io/math"
 	sdk "github.com/cosmos/cosmos-sdk/types"
+	"github.com/palomachain/paloma/v2/x/skyway"
 	skykeeper "github.com/palomachain/paloma/v2/x/skyway/keeper"
 	skytypes "github.com/palomachain/paloma/v2/x/skyway/types"
 )
@@ -252,7 +253,27 @@ func runC02Case(t *testing.T, r *Rec, nops int) {
 			before := c.atts()
 			supBefore := e.in.BankKeeper.GetSupply(e.ctx, e.denoms[0]).Amount
 			lastBefore, _ := e.raw.GetLastObservedSkywayNonce(e.ctx, skyChain)
+			// collaborator fault: in one tally out of three the chain-info lookup behind the LAST
+			// observation event of this block fails (counted on a throw-away branch first). The claim
+			// is then already applied and nothing of the tally is left to do, so the state must be
+			// what it is without the fault - an observed claim whose effect is missing shows up in
+			// `applied_exactly_once` and in the state line.
+			e.fault.Reset("", 0)
+			if r.Rng.Intn(3) == 0 {
+				cctx, _ := e.ctx.CacheContext()
+				skyway.EndBlocker(cctx, e.k, e.cc)
+				if n := e.fault.Counts["evm.chaininfo"]; n > 0 {
+					e.fault.Reset("evm.chaininfo", n)
+					r.Stat("tally.fault_at_last_observation_event")
+				} else {
+					e.fault.Reset("", 0)
+				}
+			}
 			e.endBlock()
+			if e.fault.Target != "" && !e.fault.Fired {
+				t.Fatalf("C02: the planned fault did not fire (calls %v)", e.fault.Counts)
+			}
+			e.fault.Reset("", 0)
 			ps := make([]string, nv)
 			for j := range powers {
 				ps[j] = fmt.Sprintf("%d:%d", j+1, powers[j])
